@@ -3,11 +3,12 @@
    Proved for every profile and configuration: a count that ends without a refusal has filled
    exactly the requested number of seats (definite seats, shortcut included); and the extracted
    model IS the independent weighted-inclusive-Gregory reference the implementation is compared
-   with on every explored profile (outcomes and refusals).  The solid-coalition (PSC) and
-   majority clauses are stated below in full and decided per case by a brute-force checker over
-   all candidate subsets (evidence: partial). *)
+   with on every explored profile (outcomes and refusals).  The solid-coalition (PSC) clause, the
+   majority clause (on the first count's allocation and on the ballots themselves) and the count /
+   distinctness / cap clauses are theorems for all inputs; a brute-force checker over all candidate
+   subsets additionally evaluates them on every implementation outcome. *)
 From Coq Require Import ZArith QArith List.
-From VL Require Import Prelude.PyDict Model.GetNBest Model.Convert Model.STV Model.Quota Proofs.STV_proofs Proofs.STV_majority_proofs Proofs.STV_psc_proofs.
+From VL Require Import Prelude.PyDict Model.GetNBest Model.Convert Model.STV Model.Quota Proofs.STV_proofs Proofs.STV_majority_proofs Proofs.STV_psc_proofs Proofs.STV_count_proofs.
 Import ListNotations.
 
 Theorem C04_exact_count : forall cf fuel a n total seats caps acc,
@@ -170,6 +171,125 @@ Proof.
   - discriminate.
 Qed.
 
+(* ---------------------------------------------------------------- the majority clause on the ballots themselves
+   [coalition_weight [c] votes] is the weight of the ballots whose first rank is the plain (unshared) rank c.
+   Lifted from the first count's allocation to the profile (Proofs/STV_count_proofs.v: initial_maj gives what
+   initial_allocation puts on c's pile; next_count_maj / run_maj carry "c continues and holds more than half"
+   through eliminations until c is elected by quota or is the last standing). *)
+
+(* any quota of at least half the votes: if the single-seat count ends without a refusal, c holds the seat.
+   Selector form (every cap 1); accept_quota_equal and mandatory_quota free; eliminate_step negative. *)
+Theorem C04_majority_ballots : forall cf qf (votes : list (ballot * Q)) (caps : list (C * Z)) (c : C),
+  (c_step cf < 0)%Z -> c_quota cf = Some qf ->
+  (forall x, In x (all_ranked_candidates votes) -> dget caps x = Some 1%Z) ->
+  (forall b w, In (b, w) votes -> (0 <= w)%Q) ->
+  let total := Qred (fold_left Qplus (map snd votes) 0%Q) in
+  (0 < qf total 1%Z)%Q -> (total <= 2 * qf total 1%Z)%Q ->
+  (total < 2 * coalition_weight [c] votes)%Q ->
+  let t := stv cf votes 1 [] caps in
+  t_stop t = None -> t_seats t = [(c, 1%Z)].
+Proof. exact majority_ballots. Qed.
+
+(* Droop and Hare: no hypothesis on the quota left *)
+Theorem C04_majority_ballots_droop_hare : forall (hare_q ae mq : bool) (step : Z) (votes : list (ballot * Q)) (caps : list (C * Z)) (c : C),
+  (step < 0)%Z ->
+  (forall x, In x (all_ranked_candidates votes) -> dget caps x = Some 1%Z) ->
+  (forall b w, In (b, w) votes -> (0 <= w)%Q) ->
+  let total := Qred (fold_left Qplus (map snd votes) 0%Q) in
+  (total < 2 * coalition_weight [c] votes)%Q ->
+  let t := stv (Build_cfg (Some (if hare_q then Quota.hare else Quota.droop)) ae mq step) votes 1 [] caps in
+  t_stop t = None -> t_seats t = [(c, 1%Z)].
+Proof.
+  intros hare_q ae mq step votes caps c Hstep Hcaps Hw total Hmaj t Hstop.
+  assert (Hpos : (0 < total)%Q).
+  { pose proof (total_vsum votes) as Htv. fold total in Htv. pose proof (cw_le_vsum [c] votes Hw) as Hcv.
+    rewrite <- Htv in Hcv. clear -Hmaj Hcv. apply Qnot_le_lt. intros H.
+    assert (H2 : (2 * coalition_weight [c] votes <= 2 * total)%Q) by (apply Qmult_le_l; [reflexivity|exact Hcv]).
+    assert (H3 : (2 * total <= total)%Q).
+    { setoid_replace (2 * total)%Q with (total + total)%Q by ring.
+      setoid_replace total with (total + 0)%Q at 3 by ring. apply Qplus_le_r. exact H. }
+    apply (Qlt_irrefl total). eapply Qlt_le_trans; [exact Hmaj|]. eapply Qle_trans; eassumption. }
+  destruct hare_q.
+  - destruct (hare_ok total 1 Hpos) as [Hq Hd]; [reflexivity|].
+    refine (majority_ballots (Build_cfg (Some Quota.hare) ae mq step) Quota.hare votes caps c Hstep eq_refl Hcaps Hw Hq _ Hmaj Hstop).
+    apply Qlt_le_weak. exact Hd.
+  - destruct (droop_ok total 1 (Qlt_le_weak _ _ Hpos)) as [Hq Hd]; [discriminate|].
+    refine (majority_ballots (Build_cfg (Some Quota.droop) ae mq step) Quota.droop votes caps c Hstep eq_refl Hcaps Hw Hq _ Hmaj Hstop).
+    apply Qlt_le_weak. exact Hd.
+Qed.
+
+(* Droop, whole numbers of first-choice votes: c is elected at the first count, whatever the other ballots -
+   the run cannot end in a refusal (a second candidate stands) *)
+Theorem C04_majority_ballots_first_count : forall cf (votes : list (ballot * Q)) (caps : list (C * Z)) (c c2 : C) (z : Z),
+  c_accept_equal cf = true -> c_quota cf = Some Quota.droop ->
+  (forall x, In x (all_ranked_candidates votes) -> dget caps x = Some 1%Z) ->
+  (forall b w, In (b, w) votes -> (0 <= w)%Q) ->
+  let total := Qred (fold_left Qplus (map snd votes) 0%Q) in
+  (coalition_weight [c] votes == inject_Z z)%Q -> (total < 2 * inject_Z z)%Q ->
+  In c2 (all_ranked_candidates votes) -> c2 <> c ->
+  let t := stv cf votes 1 [] caps in
+  t_seats t = [(c, 1%Z)] /\ t_stop t = None.
+Proof. exact majority_ballots_droop. Qed.
+
+(* non-vacuity: Hare quota 11 of 11 votes, nobody reaches it; 3 and then 2 are eliminated, 1 - first choice of 6 -
+   is the last standing (three counts); the same profile ends at the first count under Droop *)
+Definition maj_votes : list (ballot * Q) := [([IP 1; IP 2], 6%Q); ([IP 2; IP 3], 3%Q); ([IP 3; IP 2], 2%Q)]%positive.
+Definition maj_caps : list (C * Z) := [(1%positive, 1%Z); (2%positive, 1%Z); (3%positive, 1%Z)].
+Example C04_majority_example :
+  let th := stv (Build_cfg (Some Quota.hare) true false (-1)) maj_votes 1 [] maj_caps in
+  let td := stv (Build_cfg (Some Quota.droop) true false (-1)) maj_votes 1 [] maj_caps in
+  coalition_weight [1%positive] maj_votes = 6%Q /\
+  t_stop th = None /\ length (t_counts th) = 3%nat /\ t_seats th = [(1%positive, 1%Z)] /\
+  t_stop td = None /\ length (t_counts td) = 1%nat /\ t_seats td = [(1%positive, 1%Z)].
+Proof. vm_compute. repeat split; reflexivity. Qed.
+
+(* ---------------------------------------------------------------- who is seated, every configuration
+   Distributor form: no candidate is listed twice, everybody listed stands, holds at least one seat and never
+   more than its cap (max_seats); finished and refused counts alike.  Caps of standing candidates positive. *)
+Theorem C04_seats_within_caps : forall cf (votes : list (ballot * Q)) (n : Z) (caps : list (C * Z)),
+  (forall c m, In c (all_ranked_candidates votes) -> dget caps c = Some m -> (0 < m)%Z) ->
+  let t := stv cf votes n [] caps in
+  NoDup (map fst (t_seats t)) /\
+  forall c s, In (c, s) (t_seats t) ->
+    In c (all_ranked_candidates votes) /\ (1 <= s)%Z /\ forall m, dget caps c = Some m -> (s <= m)%Z.
+Proof. exact stv_seats_ok. Qed.
+
+(* ... and a finished count hands out exactly n seats among them *)
+Theorem C04_exact_count_caps : forall cf (votes : list (ballot * Q)) (n : Z) (caps : list (C * Z)),
+  (forall c m, In c (all_ranked_candidates votes) -> dget caps c = Some m -> (0 < m)%Z) ->
+  let t := stv cf votes n [] caps in
+  t_stop t = None ->
+  zsum (map snd (t_seats t)) = n /\ NoDup (map fst (t_seats t)) /\
+  forall c s, In (c, s) (t_seats t) -> (1 <= s)%Z /\ forall m, dget caps c = Some m -> (s <= m)%Z.
+Proof.
+  intros cf votes n caps Hcap t Hstop. destruct (stv_seats_ok cf votes n caps Hcap) as [H1 H2]. fold t in H1, H2.
+  split; [unfold t, stv in *; apply run_complete, Hstop|]. split; [exact H1|].
+  intros c s Hin. exact (proj2 (H2 c s Hin)).
+Qed.
+
+(* Selector form (every cap 1): the elected list holds exactly the requested number of distinct candidates *)
+Theorem C04_exact_distinct : forall cf (votes : list (ballot * Q)) (n : Z) (caps : list (C * Z)),
+  (forall c, In c (all_ranked_candidates votes) -> dget caps c = Some 1%Z) ->
+  let t := stv cf votes n [] caps in
+  t_stop t = None ->
+  Z.of_nat (length (t_seats t)) = n /\ NoDup (map fst (t_seats t)) /\
+  forall c s, In (c, s) (t_seats t) -> s = 1%Z /\ In c (all_ranked_candidates votes).
+Proof. exact stv_selector_count. Qed.
+
+(* non-vacuity with caps above one: three seats, caps 2/2/1; and why caps must be positive: a standing
+   candidate capped at 0 is listed with 0 seats by the shortcut (the implementation returns {'A': 1, 'B': 0}) *)
+Example C04_caps_example :
+  let t := stv (Build_cfg (Some Quota.droop) true false (-1))
+               [([IP 1; IP 2], 14%Q); ([IP 2; IP 3], 5%Q); ([IP 3; IP 2], 4%Q)]%positive 3 []
+               [(1%positive, 2%Z); (2%positive, 2%Z); (3%positive, 1%Z)] in
+  t_stop t = None /\ t_seats t = [(1%positive, 2%Z); (2%positive, 1%Z)].
+Proof. vm_compute. split; reflexivity. Qed.
+Example C04_cap_zero_listed :
+  let t := stv (Build_cfg (Some Quota.droop) true false (-1)) [([IP 1], 2%Q); ([IP 2], 1%Q)]%positive 1 []
+               [(1%positive, 1%Z); (2%positive, 0%Z)] in
+  t_stop t = None /\ t_seats t = [(1%positive, 1%Z); (2%positive, 0%Z)].
+Proof. vm_compute. split; reflexivity. Qed.
+
 Print Assumptions C04_exact_count.
 Print Assumptions C04_last_standing.
 Print Assumptions C04_single_seat_quota_winner.
@@ -180,3 +300,9 @@ Print Assumptions C04_psc_droop.
 Print Assumptions C04_psc_hare.
 Print Assumptions C04_psc_example.
 Print Assumptions C04_psc_unrestricted_refuted.
+Print Assumptions C04_majority_ballots.
+Print Assumptions C04_majority_ballots_droop_hare.
+Print Assumptions C04_majority_ballots_first_count.
+Print Assumptions C04_seats_within_caps.
+Print Assumptions C04_exact_count_caps.
+Print Assumptions C04_exact_distinct.
